@@ -30,8 +30,8 @@ def run(c):
         trace = c.replay
     else:
         trace = c.scratch + "/addrtext.ndjson"
-        c.run_driver(drv, ["-out", trace] + (["-scale", 5, "-mutevery", 6] if c.thorough else ["-scale", 1, "-mutevery", 30]))
-    r = _wire.validate_table(c, "AddrTextTrace", "AddrTextTrace.cfg", trace)
+        c.run_driver(drv, ["-out", trace] + (["-scale", 5, "-mutevery", 6] if c.thorough else ["-scale", 1, "-mutevery", 45]))
+    r = _wire.validate_table(c, "AddrTextTrace", "AddrTextTrace.cfg", trace, chunks=6 if c.thorough else 3)
     _wire.judge_table(c, r, trace)
     n = 0
     shapes = set()
